@@ -65,12 +65,16 @@ static int c_crypto_pwhash_str(A) { return crypto_pwhash_str((char *) b[0], (con
 static int c_crypto_pwhash_str_alg_argon2i(A) { return crypto_pwhash_str_alg((char *) b[0], (const char *) b[1], l1, crypto_pwhash_argon2i_OPSLIMIT_MIN, crypto_pwhash_MEMLIMIT_MIN, crypto_pwhash_ALG_ARGON2I13); }
 /* string contents: cm 1 = genuine string for the password (zero padded to the documented size), 0 = random printable,
  * 2 = genuine string cut / extended to l2 characters, 3 = like 2 with one character replaced */
+/* (for scrypt strings the cost parameters at positions 3..13 are never mutated: a single changed character there asks for
+ * up to 2^63 blocks, i.e. an in-contract but unbounded amount of work and memory - see DESIGN.md, observation O8) */
+static __thread size_t fill_str_protect_lo, fill_str_protect_hi;
 static void fill_str(unsigned char *s, size_t cap, const char *real, int cm) {
     size_t n = strlen(real), l = cap - 1;
     if (cm == 1) { vset(s, 0, cap); vcpy(s, real, vmin(n, l)); return; }
     if (cm == 0) return;
     vcpy(s, real, vmin(n, l));
-    if (cm == 3 && l) { size_t i = vrng_below(&rng, (uint32_t) l); s[i] = (unsigned char) (1 + vrng_below(&rng, 255)); }
+    if (cm == 3 && l) { size_t i = vrng_below(&rng, (uint32_t) l); if (i >= fill_str_protect_lo && i < fill_str_protect_hi) i = (fill_str_protect_hi < l) ? fill_str_protect_hi : 0;
+        s[i] = (unsigned char) (1 + vrng_below(&rng, 255)); }
     s[l] = 0;
 }
 static void real_argon(char *out, const unsigned char *pw, size_t pwlen, int which) {
@@ -84,7 +88,7 @@ static void p_crypto_pwhash_str_needs_rehash(A) { char r[128]; unsigned char pw[
 static int c_crypto_pwhash_str_needs_rehash(A) { return crypto_pwhash_str_needs_rehash((const char *) b[0], crypto_pwhash_OPSLIMIT_MIN, crypto_pwhash_MEMLIMIT_MIN) == 0 ? 0 : -1; }
 static int c_crypto_pwhash_scryptsalsa208sha256(A) { return crypto_pwhash_scryptsalsa208sha256(b[0], l2, (const char *) b[1], l1, b[2], crypto_pwhash_scryptsalsa208sha256_OPSLIMIT_MIN, crypto_pwhash_scryptsalsa208sha256_MEMLIMIT_MIN); }
 static int c_crypto_pwhash_scryptsalsa208sha256_str(A) { return crypto_pwhash_scryptsalsa208sha256_str((char *) b[0], (const char *) b[1], l1, crypto_pwhash_scryptsalsa208sha256_OPSLIMIT_MIN, crypto_pwhash_scryptsalsa208sha256_MEMLIMIT_MIN); }
-static void p_crypto_pwhash_scryptsalsa208sha256_str_verify(A) { char r[128]; real_argon(r, b[1], l1, 2); fill_str(b[0], sz[0], r, cm); }
+static void p_crypto_pwhash_scryptsalsa208sha256_str_verify(A) { char r[128]; real_argon(r, b[1], l1, 2); fill_str_protect_lo = 3; fill_str_protect_hi = 14; fill_str(b[0], sz[0], r, cm); fill_str_protect_lo = fill_str_protect_hi = 0; }
 static int c_crypto_pwhash_scryptsalsa208sha256_str_verify(A) { return crypto_pwhash_scryptsalsa208sha256_str_verify((const char *) b[0], (const char *) b[1], l1); }
 static void p_crypto_pwhash_scryptsalsa208sha256_str_needs_rehash(A) { char r[128]; unsigned char pw[4] = { 'a', 'b', 'c', 0 }; real_argon(r, pw, 3, 2); fill_str(b[0], sz[0], r, cm); }
 static int c_crypto_pwhash_scryptsalsa208sha256_str_needs_rehash(A) { return crypto_pwhash_scryptsalsa208sha256_str_needs_rehash((const char *) b[0], crypto_pwhash_scryptsalsa208sha256_OPSLIMIT_MIN, crypto_pwhash_scryptsalsa208sha256_MEMLIMIT_MIN) == 0 ? 0 : -1; }
